@@ -4,10 +4,11 @@ import EaselModel.Buffer.Safe
 
 `history_spec` needs `ValidHist` (the API contract). Here the contract is discharged: for every operation from every
 state reached so far, the model of the code either simulates the specification step, or answers the documented
-`eslEINVAL` and leaves a state that is described exactly (`Total`). What is still asked of the caller is `CallerOk`,
-four clauses about the *current window*; each of them is necessary: violating it drives the code (and the model) into a
-state with the cursor outside the window or the anchor ahead of the cursor, from which later calls read out of bounds
-(`unsafe_*` witnesses in `Props/C05.lean`; the real code dies under ASan on the same histories). -/
+`eslEINVAL` and leaves a state that is described exactly (`Total`). What is still asked of the caller is `CallerOk`:
+one clause (`Set(p, nused)` stays within the bytes the preceding `Get*` exposed — undefined by the documentation, unchecked
+by the code; violating it leaves the cursor outside the window and later calls read out of bounds: `unsafe_set_beyond_window`
+in `Props/C05.lean`; the real code dies under ASan on the same history). Anchors ahead of the cursor and in-window rewinds
+to before the anchor are inside the theorem since round 4 (the code copes with them since b86a62d). -/
 namespace EaselModel.Buffer
 
 /-- **What one operation may do, contract or not** (`a` = specification state before, then the observation and the
@@ -109,8 +110,11 @@ theorem R.unchanged {P : Nat} {a : AState} {s s' : Sess} (r : R P a s) (hb : s'.
 
 /-! ## Set -/
 
-theorem total_set (P k : Nat) (a : AState) (s : Sess) (r : R P a s) (hs : CallerOk s (.set k)) : TStep P a s (.set k) := by
-  apply TStep.of_sim
+/-- `Set` inside `CallerOk` simulates the specification step (more than the contract `Valid` grants: any `nused` that stays
+    within the loaded bytes) -/
+theorem sim_set_callerOk (P k : Nat) (a : AState) (s : Sess) (r : R P a s) (hs : CallerOk s (.set k)) :
+    obsOf (.set k) (s.step (.set k)).1 (s.step (.set k)).2 = (specStep a (.set k)).1 ∧
+    R P (specStep a (.set k)).2 (s.step (.set k)).2 := by
   have hp := r.wf.hpos
   cases hl : s.lastp with
   | none =>
@@ -124,6 +128,9 @@ theorem total_set (P k : Nat) (a : AState) (s : Sess) (r : R P a s) (hs : Caller
     · exact ⟨r.wf.hwin, hik, r.wf.hanch, r.wf.hps, r.wf.heof, r.wf.hnofp⟩
     · show s.b.base + (i + k) = _; omega
     · unfold specStep; simp only [hal]
+
+theorem total_set (P k : Nat) (a : AState) (s : Sess) (r : R P a s) (hs : CallerOk s (.set k)) : TStep P a s (.set k) :=
+  TStep.of_sim (sim_set_callerOk P k a s r hs)
 
 /-! ## SetAnchor / SetStableAnchor -/
 
